@@ -151,6 +151,14 @@ def default_of_type(ty, what="?"):
     return Opaque(what)
 
 
+class PathStr(str):
+    """the text of a std::path::Path: compares component-wise (Path's Ord), not byte-wise"""
+
+    def comps(self):
+        parts = [c for c in self.split("/") if c not in ("", ".")] if self not in ("", ".") else []
+        return (self.startswith("/"), parts)
+
+
 class Entry:
     def __init__(self, m, k):
         self.m, self.k = m, k
@@ -1309,6 +1317,12 @@ class Interp:
             b_ = self.ev(n["args"][0], env)
             if isinstance(b_, float) and (recv != recv or b_ != b_):
                 return NONE         # NaN is unordered
+        if m in ("cmp", "partial_cmp") and len(n["args"]) == 1 and isinstance(recv, PathStr):
+            o_ = self.ev(n["args"][0], env)
+            if isinstance(o_, str):
+                a_, b_ = recv.comps(), PathStr(o_).comps()
+                r_ = V("Ordering::" + ("Less" if a_ < b_ else "Greater" if a_ > b_ else "Equal"))
+                return r_ if m == "cmp" else some(r_)
         if m in ("cmp", "partial_cmp") and len(n["args"]) == 1 and isinstance(recv, (int, float, str)) and not isinstance(recv, bool):
             b_ = self.ev(n["args"][0], env)
             if type(b_) == type(recv) or (isinstance(b_, (int, float)) and isinstance(recv, (int, float)) and not isinstance(b_, bool)):
@@ -1496,6 +1510,10 @@ class Interp:
                 return a        # Box::from(x): the box is its content
         if str(n.get("callee", "")).endswith(("iter::once", "once::once", "sources::once::once")) and len(n["args"]) == 1:
             return [self.ev(n["args"][0], env)]
+        if str(n.get("callee", "")).endswith("path::Path::new") and len(n["args"]) == 1:
+            a_ = self.ev(n["args"][0], env)
+            if isinstance(a_, str):
+                return PathStr(a_)
         if str(n.get("callee", "")).endswith("successors::successors") and len(n["args"]) == 2:
             cur, f_ = self.ev(n["args"][0], env), self.ev(n["args"][1], env)
             out = []
